@@ -55,7 +55,7 @@ def stages(tier, seed, bins):
                     if tr == "trans":
                         c["shift"] = rnd.choice([1.0, 10.0, 100.0])
                     if tr == "scale":
-                        c["factor"] = rnd.choice([0.01, 3.7, 250.0])
+                        c["factor"] = rnd.choice([1e-8, 1e-6, 1e-3, 0.01, 3.7, 250.0, 1e5, 1e8])
                     cases.append(c)
     for i, c in enumerate(cases):
         c["id"] = "y%d" % (i + 1)
